@@ -46,6 +46,11 @@ def specs(tier):
             near['A'] = {1: [('a', pw), ('b', 1 - pw)]}
             near['C'] = {1: [('L', pw), ('U', 1 - pw)]}
             cands.append((near, [('A1', b), ('D1', 1 - b)]))
+    # a letter whose upper case is two characters, with capitals after it
+    sharp = dict(t0)
+    sharp['A'] = {6: [('stra\u00dfe', .6), ('strase', .4)], 2: [('\u01f0a', 1.0)]}
+    sharp['C'] = {6: [('LLLLLL', .5), ('UUUUUU', .3), ('LLLLLU', .2)], 2: [('LL', .5), ('UU', .3), ('LU', .2)]}
+    cands.append((sharp, [('A6', .6), ('A2', .3), ('D1', .1)]))
     # terminals that begin or end with a blank (and one that is nothing but blanks)
     blanks = dict(t0)
     blanks['O'] = {1: [(' ', .6), ('!', .4)], 2: [(' !', .4), ('! ', .3), ('  ', .3)]}
